@@ -27,6 +27,7 @@ RULES_DOC = {
     "R9": "std functions without vstd spec get assume_specification from speclib/std_specs.rs",
     "R10": "`let PAT = EXPR else { return X; };` (let-else) -> `let (binders) = match EXPR { PAT => (binders), _ => { return X; } };`",
     "R13": "closure with a tuple-pattern parameter `|(a, b)| e` -> `|v: T| { let (a, b) = v; e }`",
+    "R14": "`let X = loop { .. break E .. };` (break with value) -> `let X; loop { .. { X = E; break; } .. }`",
     "R11": "`vec![a, b]` -> `vec2(a, b)`-style helper calls with vstd-verified bodies (speclib/std_specs.rs)",
 }
 
@@ -203,6 +204,62 @@ def rewrite_R10(text):
         binder = names[0] if len(names) == 1 else "(" + ", ".join(names) + ")"
         return "let %s = match %s { %s {%s} => %s, _ => {%s} };" % (binder, expr.strip(), path, fields, binder, body)
     return pat.sub(repl, text)
+
+def rewrite_R14(text):
+    """`let X = loop { .. break E, .. };`  ->  `let X; loop { .. { X = E; break; } .. }`  (break-with-value)"""
+    m = re.search(r"\blet\s+([A-Za-z_][A-Za-z0-9_]*)\s*=\s*loop\s*\{", text)
+    if not m:
+        return text
+    name = m.group(1)
+    toks = retok(text)
+    # locate the '{' token of the loop
+    k0 = next(k for k, t in enumerate(toks) if t.start == m.end() - 1)
+    k1 = match_close(toks, k0)
+    out = []
+    k = 0
+    n = len(toks)
+    # header
+    hdr_start = next(k for k, t in enumerate(toks) if t.start == m.start())
+    while k < hdr_start:
+        out.append(toks[k].text); k += 1
+    out.append("let %s; loop {" % name)
+    k = k0 + 1
+    depth_loop = 0
+    while k < k1:
+        t = toks[k]
+        if t.kind == "ident" and t.text == "break":
+            # expression until ',' ';' or closing brace at depth 0
+            j = k + 1
+            depth = 0
+            while j < k1:
+                tt = toks[j]
+                if tt.kind == "punct":
+                    if tt.text in ("(", "[", "{"): depth += 1
+                    elif tt.text in (")", "]", "}"):
+                        if depth == 0: break
+                        depth -= 1
+                    elif tt.text in (",", ";") and depth == 0:
+                        break
+                j += 1
+            expr = toks_text(toks[k + 1:j]).strip()
+            if expr == "":
+                out.append("break")
+            else:
+                out.append("{ %s = %s; break; }" % (name, expr))
+            k = j
+            continue
+        out.append(t.text)
+        k += 1
+    out.append("}")
+    k = k1 + 1
+    # drop the `;` that closed the let statement
+    while k < n and toks[k].kind == "ws":
+        out.append(toks[k].text); k += 1
+    if k < n and toks[k].kind == "punct" and toks[k].text == ";":
+        k += 1
+    while k < n:
+        out.append(toks[k].text); k += 1
+    return "".join(out)
 
 def rewrite_R2(text):
     text = re.sub(r"unsafe\s*\{\s*([A-Za-z_\.]+(?:\.as_ref\(\)\?)?)\s*\.get_mut\(\s*([^)]*?)\s*\)\s*\}", r"&\1.0[\2]", text)
@@ -415,7 +472,7 @@ def emit_fn(out, u, fs, rules_used):
     t2 = pub_vis(text1)
     if t2 != text1: rules_used.add("R7")
     text1 = t2
-    for rule, fnr in (("R1", lambda t: rewrite_R1(t, in_table_impl)), ("R3", rewrite_R3), ("R8", rewrite_R8), ("R10", rewrite_R10)):
+    for rule, fnr in (("R1", lambda t: rewrite_R1(t, in_table_impl)), ("R3", rewrite_R3), ("R8", rewrite_R8), ("R10", rewrite_R10), ("R14", rewrite_R14)):
         t2 = fnr(text1)
         if t2 != text1: rules_used.add(rule)
         text1 = t2
